@@ -99,9 +99,9 @@ c07_i1_toggle_brace_b1_w3 c07_i1_toggle_slashes_b0_w2 c07_i2_region_marking_3tok
 c08_s1_spacing_zero_or_one_3kinds c08_s2_olf_zeroes_spaces_at_line_start c08_s3_apply_solution_counters c08_s4_eof_newline c08_r1_render_soft_w2_w4
 c09_q1_lf_vs_crlf_soft_w2_w4 c09_q3_counters_crlf_eq_lf_nnb
 c10_a1_settings_to_strings c10_a2_new_soft_w0_w3 c10_a2_new_soft_w2_w4 c10_a2_new_hard_w1_w2 c10_a2_new_hard_w5_w0 c10_a3_linewhitespace_len_arith c10_a3_len_equals_emitted_soft_w2_w4 c10_a3_len_equals_emitted_hard_w1_w3 c10_a4_tabs_vs_spaces_tw2_ci2
-c13_d1_dispatch_table_all_bytes c13_w1_blanks_sIs c13_w1_blanks_ssss c13_v2_scalar_ident_sIs c13_l1_colon_n2 c13_l1_slash_n3 c13_l1_digit_n3 c13_l1_dot_n2 c13_l1_langle_n2 c13_l1_simple_ops_n1 c13_l1_unknown_n1 c13_v1_avx2_eq_ref_len33_off1
+c13_d1_dispatch_table_all_bytes c13_w1_blanks_sIs c13_w1_blanks_ssss c13_w1_blanks_sNs c13_v2_scalar_ident_sIs c13_l1_colon_n2 c13_l1_slash_n3 c13_l1_digit_n3 c13_l1_dot_n2 c13_l1_langle_n2 c13_l1_simple_ops_n1 c13_l1_unknown_n1 c13_v1_avx2_eq_ref_len33_off1
 c12_m1c_lf_basic c12_m1c_cr_only c12_m1c_short_nonblank_line c12_m1c_ignored_untouched
-c15_a_attach_list1_c3 c15_a_attach_list3_c8 c15_a_attach_list4_c9 c15_a_attach_list2_c4 c15_b_relocate_list1_c1 c15_b_relocate_list1_c3 c15_b_relocate_list1_c5 c15_b_relocate_list2_c4 c15_b_relocate_list3_c8 c15_b_relocate_list4_c9 c15_b_relocate_list1_ignored_c3 c15_b_relocate_list1_cmax c15_b_relocate_rewritten_literal_c4 c15_b_relocate_rewritten_literal_c9
+c15_a_attach_list1_c3 c15_a_attach_list3_c8 c15_a_attach_list4_c9 c15_a_attach_list2_c4 c15_b_relocate_list1_c1 c15_b_relocate_list1_c3 c15_b_relocate_list1_c5 c15_b_relocate_list2_c4 c15_b_relocate_list3_c8 c15_b_relocate_list4_c9 c15_b_relocate_list1_ignored_c3 c15_b_relocate_list1_cmax c15_b_relocate_rewritten_literal_c4 c15_b_relocate_rewritten_literal_c9 c15_a_attach_list8crlf_c2 c15_b_relocate_list8crlf_c2
 c04_cursor_nocontract_list1_c3 c04_cursor_nocontract_list5_c3 c04_cursor_nocontract_list4_c8 c04_cursor_nocontract_list6_c4 c04_cursor_nocontract_list1_cmax
 c17_u0_bom_sniffing c17_u1_utf16le_1scalar c17_u1_utf16be_1scalar c17_u3_write_utf8_len3
 """.split())
@@ -121,8 +121,13 @@ SHARED = [
     ("C01", r"c12_m1c_"),         # P4: multi-line string rewriting preserves the non-blank sequence
     ("C02", r"c03_f3_"),          # H4: lower-cased keywords keep their kind
     ("C03", r"c12_m1c_lf_basic$"), ("C03", r"c12_m5_"),
+    ("C02", r"c12_m1c_"),         # multi-line literals re-scan to the same literal modulo indentation/terminators
+    ("C07", r"c08_s1_"), ("C07", r"c08_s2_"),   # K-IGN: spacing and the wrapper's tail hand the ignored flag back unchanged
     ("C08", r"c03_f1a_"),         # line comments end up without trailing ASCII whitespace
+    ("C08", r"c10_a1_"),          # a continuation is a whole number of indentation units
     ("C09", r"c12_m1c_"),         # Q2: interior terminators of re-indented literals = configured one
+    ("C09", r"c13_l1_slash_"),    # Q4: a line comment ends at CR as well as LF
+    ("C01", r"c13_w1_"),          # lexer losslessness: only Delphi blanks are whitespace
     ("C13", r"c03_f3_"),          # K1: keyword recognition
     ("C13", r"c12_m3_"),          # T2: multi-line literal opener / terminator
     # C04: every harness checks panics / overflow / unwinding; these run on unrestricted inputs
@@ -135,7 +140,9 @@ SMT = {"C13": [{"module": "smt.avx2_lane", "tier": "quick"}]}
 # shared obligations that also run in the borrowing property's quick tier
 SHARED_QUICK = {
     ("C01", "c12_m1c_short_nonblank_line"), ("C02", "c03_f3_keywords_any_case_len4"), ("C03", "c12_m1c_lf_basic"),
-    ("C08", "c03_f1a_line_comment_result_normal_len3"), ("C09", "c12_m1c_cr_only"), ("C13", "c03_f3_keywords_any_case_len4"),
+    ("C08", "c03_f1a_line_comment_result_normal_len3"), ("C08", "c10_a1_settings_to_strings"), ("C09", "c12_m1c_cr_only"), ("C13", "c03_f3_keywords_any_case_len4"),
+    ("C07", "c08_s1_spacing_zero_or_one_3kinds"), ("C02", "c12_m1c_blank_line_longer_than_base"),
+    ("C09", "c13_l1_slash_n3"), ("C01", "c13_w1_blanks_sNs"),
     ("C04", "c13_l1_digit_n3"), ("C04", "c13_l1_slash_n3"), ("C04", "c01_p2_line_comment_len3"), ("C04", "c07_i1_toggle_brace_b1_w3"),
     ("C04", "c15_b_relocate_rewritten_literal_c4"), ("C04", "c12_m1c_short_nonblank_line"),
 }
@@ -157,7 +164,7 @@ def harness_names(hcrate):
         if not m:
             continue
         text = open(os.path.join(src, f)).read()
-        names = re.findall(r"\bfn (c\d+_\w+)\(\) unwind\(", text) + re.findall(r"\b(c\d+_\w+) => \(", text)
+        names = re.findall(r"\bfn (c\d+_\w+)\(\) unwind\(", text) + re.findall(r"\b(c\d+_\w+) => \(", text) + re.findall(r"\b(c\d+_\w+), c\d+_\w+ => \(", text)
         for n in names:
             out.append((m.group(1), n))
     return out
